@@ -3,7 +3,7 @@
 PROPS = {
     'C15': dict(
         verus=['tile_bbox'],
-        kani=['pyramid', 'tile_bbox'],
+        kani=['pyramid', 'tile_bbox', 'geo'],
         not_decided=[
             'y-axis geographic round trip through libm tan/ln/exp/atan (numerical error analysis out of reach)',
         ],
@@ -27,7 +27,7 @@ PROPS = {
     ),
     'C06': dict(
         verus=['converter', 'tile_bbox'],
-        kani=['pyramid'],
+        kani=['pyramid', 'geo'],
         not_decided=[
             'CLI string parsing of --bbox / zoom options (iterator chain, havoc under R9 where extracted)',
             'multiplicity of streamed tiles (streams are modelled as finite maps)',
@@ -44,7 +44,7 @@ PROPS = {
     ),
     'C09': dict(
         verus=['filters', 'tile_bbox'],
-        kani=['pyramid'],
+        kani=['pyramid', 'geo'],
         not_decided=[
             'Args::from_vpl_node (derive-generated argument parsing; C18 territory)',
         ],
@@ -93,8 +93,8 @@ PROPS = {
         ],
     ),
     'C19': dict(
-        verus=['varint_pbf', 'pmtiles_dir', 'filters', 'converter'],
-        kani=['pmtiles_codec', 'versatiles_codec'],
+        verus=['varint_pbf', 'pmtiles_dir', 'filters', 'converter', 'vector_tile_tables'],
+        kani=['pmtiles_codec', 'versatiles_codec', 'geo'],
         not_decided=[
             'JSON / TileJSON / CSV / VPL text parsers (String, nom, core::fmt: outside both verifiers; Kani probes timed out)',
             'vector tile layer/feature decoding above the PBF primitives', 'MBTiles / tar / directory opening', 'stack depth of the recursive JSON parser',
